@@ -51,6 +51,8 @@ CMP = {ast.Eq: operator.eq, ast.NotEq: operator.ne, ast.Lt: operator.lt, ast.LtE
 
 
 def binop(op, a, b):
+    if isinstance(op, ast.Pow) and isinstance(b, int) and not isinstance(b, bool) and 0 <= b <= 4:
+        return a ** b if is_num(a) else Sym('(%s ^ %d)' % (coq(a), b))
     if type(op) not in BIN:
         raise Unsupported('operator ' + type(op).__name__)
     sym, fn = BIN[type(op)]
@@ -195,6 +197,8 @@ class Interp:
             if st.orelse:
                 raise Unsupported('for/else')
             it = self.expr(st.iter, env)
+            if isinstance(it, Vec):
+                it = it.items
             if not isinstance(it, (list, tuple)):
                 raise Unsupported('loop over a non-literal sequence: ' + ast.unparse(st.iter)[:60])
             for v in it:
@@ -290,7 +294,7 @@ class Interp:
                 return env[n.id]
             if n.id in ('np', 'numpy'):
                 return Marker('np')
-            if n.id in ('range', 'enumerate', 'len', 'float', 'int', 'list', 'tuple'):
+            if n.id in ('range', 'enumerate', 'len', 'float', 'int', 'list', 'tuple', 'sum', 'zip'):
                 return Marker('builtin', id=n.id)
             raise Unsupported('free name ' + n.id)
         if isinstance(n, (ast.Tuple, ast.List)):
@@ -370,6 +374,25 @@ class Interp:
             if isinstance(b, (list, tuple)) and isinstance(k, int) and not isinstance(k, bool) and 0 <= k < len(b):
                 return b[k]
             raise Unsupported('subscript ' + ast.unparse(n)[:60])
+        if isinstance(n, (ast.ListComp, ast.GeneratorExp)):
+            if len(n.generators) != 1 or n.generators[0].is_async:
+                raise Unsupported('nested comprehension')
+            gen = n.generators[0]
+            it = self.expr(gen.iter, env)
+            if isinstance(it, Vec):
+                it = it.items
+            if not isinstance(it, (list, tuple)):
+                raise Unsupported('comprehension over a non-literal sequence')
+            out = []
+            env2 = dict(env)
+            for v in it:
+                self.assign(gen.target, v, env2)
+                conds = [self.expr(c, env2) for c in gen.ifs]
+                if not all(isinstance(c, (bool, int)) for c in conds):
+                    raise Unsupported('comprehension filter on a non-concrete value')
+                if all(conds):
+                    out.append(self.expr(n.elt, env2))
+            return out
         if isinstance(n, ast.Call):
             if n.keywords:
                 raise Unsupported('keyword arguments in ' + ast.unparse(n)[:60])
@@ -391,6 +414,15 @@ class Interp:
                         return len(args[0])
                 if f.id in ('list', 'tuple') and len(args) == 1 and isinstance(args[0], (list, tuple)):
                     return list(args[0]) if f.id == 'list' else tuple(args[0])
+                if f.id == 'sum' and len(args) == 1 and isinstance(args[0], (list, tuple)):
+                    acc = 0
+                    for v in args[0]:
+                        acc = binop(ast.Add(), acc, v)
+                    return acc
+                if f.id == 'zip' and args and all(isinstance(a, (list, tuple, Vec)) for a in args):
+                    return [tuple(t) for t in zip(*[a.items if isinstance(a, Vec) else a for a in args])]
+                if f.id in ('float', 'int') and len(args) == 1 and is_num(args[0]) and float(args[0]) == int(args[0]):
+                    return args[0]
                 raise Unsupported('builtin call ' + ast.unparse(n)[:60])
             if isinstance(f, Marker) and f.name == 'np.array' and len(args) == 1:
                 return Mat(args[0])
